@@ -167,3 +167,14 @@ func init() {
 		}
 	}
 }
+
+func init() {
+	dumpers["grammar"] = func(c *Ctx) {
+		m := c.Machine()
+		a := m.AnalyseGrammar(6)
+		fmt.Println("configs", a.Configs, "transitions", a.Transitions, a.ByKind)
+		for _, f := range a.Findings {
+			fmt.Printf("  %s: %s  trace %s\n", f.Kind, f.Key, f.Trace)
+		}
+	}
+}
